@@ -48,6 +48,10 @@ var vhC07Pos = []struct{ main, inc string }{
 	{"{% for i in [v] %}{{ i|%F }}{% endfor %}", ""},
 	{"{% set w = v|%F %}{{ w }}", ""},
 	{"{% if true %}{{ v|%F }}{% endif %}", ""},
+	// the filter at the end of a chain that starts from an undefined name or a missing attribute
+	{"{{ nosuch|default(v)|%F }}", ""},
+	{"{{ v.nosuch|default(v)|%F }}", ""},
+	{"{{ nosuch|default(v)|trim('')|%F }}", ""},
 }
 
 func vhSubst(s, name string) string {
@@ -63,8 +67,12 @@ func vhSubst(s, name string) string {
 	return out
 }
 
+// strict-variables mode of the engines of the current run
+var vhC07Strict bool
+
 func vhC07Render(pos int, name string, v interface{}) (string, error) {
 	e := New()
+	e.SetStrictVars(vhC07Strict)
 	if vhC07Pos[pos].inc != "" {
 		if err := e.RegisterString("inc", vhSubst(vhC07Pos[pos].inc, name)); err != nil {
 			return "", err
@@ -96,9 +104,11 @@ func VH_C07_Escape() {
 // VH_C07_Positions: every position in which a filter can be applied gives the same bytes as the
 // plain print position, for both names.
 func VH_C07_Positions() {
+	vhC07Strict = symBool()
 	n := symChoice(symParam("N", 2) + 1)
 	v := symString(n)
 	pos := 1 + symChoice(len(vhC07Pos)-1)
+	symTag("pos:" + vhC07Pos[pos].main)
 	name := "escape"
 	if symBool() {
 		name = "e"
